@@ -94,10 +94,22 @@ func (g *hgen) logon(spec LogonSpec) *rig.InMsg {
 	case "above":
 		hb = c.HBMax + 1 + rapid.IntRange(0, 100).Draw(g.t, "hbAbove")
 	case "text":
-		fields = append(fields, rig.F(rig.TagHeartBtInt, rapid.SampledFrom([]string{"x", "3O", "1.5", " 30"}).Draw(g.t, "hbText")))
+		fields = append(fields, rig.F(rig.TagHeartBtInt, rapid.SampledFrom([]string{"x", "3O", "1.5", " 30", "0x1E", "1_0", "0b11", "0o17", "1e1"}).Draw(g.t, "hbText")))
 	}
 	if spec.HB != "text" && spec.HB != "absent" {
-		fields = append(fields, rig.F(rig.TagHeartBtInt, itoa(hb)))
+		// decimal digits with an optional sign; now and then with leading zeros or a plus sign
+		txt := itoa(hb)
+		if hb >= 0 {
+			switch rapid.IntRange(0, 9).Draw(g.t, "hbSpelling") {
+			case 0:
+				txt = "0" + txt
+			case 1:
+				txt = "00" + txt
+			case 2:
+				txt = "+" + txt
+			}
+		}
+		fields = append(fields, rig.F(rig.TagHeartBtInt, txt))
 	}
 	user, pass := "alice", "secret"
 	if spec.Creds == "bad" {
